@@ -344,7 +344,7 @@ def new_header(mm, **fields):
 
 
 def inv_ok(mm):
-    """representation invariant I1-I4 of DESIGN.md section 3 (I5 is C06's)"""
+    """representation invariant I1-I4, I6 of DESIGN.md section 3 (I5 is C06's)"""
     mods = list(mm.modules.values())
     # I1 index and inverse index agree
     for t, s in mm.subscriptions.items():
@@ -375,6 +375,10 @@ def inv_ok(mm):
             return False
         if c is not mm.listen_socket and c.closed:
             return False
+    # I6 the dynamic-id cursor stays inside the dynamic range (every harness assumes 0 <= cursor <= 99 on the pre-state, so the
+    # step has to re-establish it: a cursor that may reach 100 hands out id MAX_MODULES one request later)
+    if not (0 <= mm.next_dynamic_mod_id_offset < cd.MAX_MODULES - cd.DYN_MOD_ID_START):
+        return False
     return True
 
 
